@@ -165,8 +165,8 @@ PROPS = {
     ),
     'C18': dict(
         title='order / history independence, no retention', proj='proj_full', oracle='c18',
-        quick=[S_('cache', maxlen=3), S_('modorder'), S_('pokm'), S_('lateattr', nc=1), S_('redecorate', nc=4)],
-        thorough=[S_('cache', maxlen=4), S_('modorder'), S_('pokm'), S_('lateattr', nc=1), S_('redecorate', nc=4)],
+        quick=[S_('cache', maxlen=3), S_('modorder'), S_('pokm'), S_('lateattr', nc=1), S_('probes', nc=1, items=('owner_binding',)), S_('redecorate', nc=4)],
+        thorough=[S_('cache', maxlen=4), S_('modorder'), S_('pokm'), S_('lateattr', nc=1), S_('probes', nc=1, items=('owner_binding',)), S_('redecorate', nc=4)],
         runtime_part='the garbage collector and weakref callbacks (observed through weak references after gc.collect())',
         level_text='The descriptor cache is a heap-reachability model over arbitrary operation histories: no retention with the weak-value dictionary is a theorem (and retention with the '
                    'pinned weak-key one is its refutation, D7, repaired); order independence of stacked modifiers is the theorem prepare_set_ext. Real histories (all of length <= 3/4 over '
@@ -198,8 +198,8 @@ PROPS = {
     ),
     'C07': dict(
         title='retrieval is total and only narrows', proj='proj_full', oracle='c07',
-        quick=[S_('visitor_corpus', limit=4000), S_('visitor_adv', nc=4), S_('probes', nc=1, items=('adversarial2',)), S_('retrieve'), S_('programs', count=16000, routes=('self', 'param'), ops=('pauto',))],
-        thorough=[S_('visitor_corpus'), S_('visitor_adv', nc=4), S_('probes', nc=1, items=('adversarial2',)), S_('retrieve'), S_('programs', count=160000, routes=('self', 'param'), ops=('pauto',))],
+        quick=[S_('visitor_corpus', limit=4000), S_('visitor_adv', nc=4), S_('chain', nc=4), S_('probes', nc=2, items=('adversarial2', 'other_thread')), S_('retrieve'), S_('programs', count=16000, routes=('self', 'param'), ops=('pauto',))],
+        thorough=[S_('visitor_corpus'), S_('visitor_adv', nc=4), S_('chain', nc=4), S_('probes', nc=2, items=('adversarial2', 'other_thread')), S_('retrieve'), S_('programs', count=160000, routes=('self', 'param'), ops=('pauto',))],
         runtime_part='what inspect, getsource, ast.parse, getattr and Sphinx raise on real objects (validated over the corpus, not proved)',
         level_text='Totality of the AST walker on arbitrary trees (theorem visitor_total: the deferred-call queue always drains) and of the fallback chain of the model; the real retrieval is run over every '
                    'star-taking function and a seeded sample (thorough: all) of the ~2*10^4 callables of the importable standard library and installed packages plus adversarial sources, comparing the '
@@ -208,8 +208,8 @@ PROPS = {
     ),
     'C11': dict(
         title='postponed annotations', proj='proj_uann', oracle='c11',
-        quick=[S_('meta_post', count=30000), S_('meta_rand', count=10000), S_('annot', count=4000), S_('probes_c11', nc=1)],
-        thorough=[S_('meta_post', count=300000), S_('meta_rand', count=100000), S_('annot', count=60000), S_('probes_c11', nc=1)],
+        quick=[S_('meta_post', count=30000), S_('meta_rand', count=10000), S_('annot', count=4000), S_('probes', nc=1, items=('annot_scopes',)), S_('probes_c11', nc=1)],
+        thorough=[S_('meta_post', count=300000), S_('meta_rand', count=100000), S_('annot', count=60000), S_('probes', nc=1, items=('annot_scopes',)), S_('probes_c11', nc=1)],
         runtime_part='eval() of postponed annotations in real function globals (stream `annot` compiles real twins with and without the future flag, shared and per-function globals)',
         level_text='The algebra carries the (annotation, upgraded annotation) pair of a parameter around without looking inside: that every pair of a result is literally the pair of an input parameter '
                    '(so a postponed annotation is never re-associated with another function\'s globals) is a theorem for merge/embed/mask/forwards/partial/modifiers; twin invariance is refuted at full '
@@ -218,8 +218,8 @@ PROPS = {
     ),
     'C13': dict(
         title='wrappers are call-transparent', proj='proj_full', oracle='c13',
-        quick=[S_('wrap', count=640), S_('wlist', nc=4)],
-        thorough=[S_('wrap', count=12000), S_('wlist', nc=4)],
+        quick=[S_('wrap', count=640), S_('probes', nc=1, items=('owner_binding',)), S_('wlist', nc=4)],
+        thorough=[S_('wrap', count=12000), S_('probes', nc=1, items=('owner_binding',)), S_('wlist', nc=4)],
         runtime_part='functools.partial / descriptor call path: call transparency is definitional in any model and is validated on the real objects, not proved',
         level_text='Introspection side as theorems: wrappers() order for any stack depth, each stack level is a forwards (hence sound by C04), the Combination signature is sound for consistently named '
                    'functions (instance of the n-ary merge soundness theorem). Real side: decorator / wrapper_decorator stacks of depth 1-3 as function / method / staticmethod and Combinations of 1-3 '
